@@ -415,6 +415,11 @@ def make_jobs(run, exe, scratch):
         add("topo", m, desc, backends=(0,) if k % 5 else (1,), tflags=0, opts=4 | 8)
         if k % 4 == 0:
             add("topo", m, desc, backends=(0,), tflags=0, opts=4)
+    # 2c. userdata: valid base64 content of many lengths with the length attribute, the content, the padding, the
+    #     encoding and the name moved around it; import callback installed (decoding mode mostly)
+    ulens = (list(range(0, 13)) + [54, 55, 56, 57, 58, 102, 103, 104, 127, 128, 129, 130]) if quick else list(range(0, 131))
+    for k, (m, desc) in enumerate(G.userdata_docs(ulens)):
+        add("topo", m, desc, backends=(k % 2,), tflags=0, opts=4 | (1, 1, 1, 1, 2, 0)[k % 6] | (8 if k % 3 == 0 else 0))
     # 3. truncation at every byte of the small documents (nolibxml), sampled for libxml
     for name, data in (seeds[2:3] if quick else seeds[2:4] + [seeds[0]]):
         for k in range(len(data) + 1):
@@ -546,6 +551,17 @@ def tok_correspondence(run, jobs, scratch):
         inputs.append(j)
     lim = 2200 if quick else 20000
     inputs = inputs[:lim]
+    # direct differential run of hwloc_decode_from_base64 against the block model decode_mem: every length, every target
+    # size around the need, valid and damaged encodings (kind b64: one file of "<targsize> <text>" lines per case)
+    cases = list(G.b64_cases(range(0, 70) if quick else range(0, 200)))
+    for k in range(0, len(cases), 300):
+        bj = Job("b64", 0, "buf", 0, 0, b"".join(b"%d %s\n" % (t, v) for t, v in cases[k:k + 300]), "b64:%d" % k)
+        bj.id = "b%d" % k
+        bj.path = os.path.join(scratch, "b64-%d" % k)
+        with open(bj.path, "wb") as f:
+            f.write(bj.data)
+        inputs.append(bj)
+    run.cov["base64_decode_cases"] = len(cases)
     lst = os.path.join(scratch, "toklist")
     with open(lst, "w") as f:
         for j in inputs:
@@ -577,7 +593,9 @@ def tok_correspondence(run, jobs, scratch):
                 ndiff += 1
                 l1, l2 = (t1 or "<no output>").split("\n"), (t2 or "<no output>").split("\n")
                 k = next((i for i in range(min(len(l1), len(l2))) if l1[i] != l2[i]), min(len(l1), len(l2)))
-                run.violation("correspondence:tokenizer", "model tokenizer XmlLex and the real nolibxml tokenizer print different token streams for the same bytes (%s)" % j.origin,
+                run.violation("correspondence:base64-decode" if j.kind == "b64" else "correspondence:tokenizer",
+                              ("hwloc_decode_from_base64 and the block model decode_mem (proved in bounds) answer differently for the same (target size, text) (%s)" if j.kind == "b64" else
+                               "model tokenizer XmlLex and the real nolibxml tokenizer print different token streams for the same bytes (%s)") % j.origin,
                               j.replay_text() + "--- first differing line %d\nimpl:  %s\nmodel: %s\n--- impl stderr\n%s\n--- model stderr\n%s" % (
                                   k, l1[k] if k < len(l1) else "<end>", l2[k] if k < len(l2) else "<end>", e1[-1500:], e2[-500:]), no_input=True)
     run.cov["tokenizer_correspondence"] = {"inputs": len(inputs), "identical_streams": nsame, "different": ndiff}
